@@ -364,7 +364,8 @@ for t in ["ram_e1_up_hp", "ram_e2_up_hp", "nik_e1_up_hp", "kf_k1_up_hp", "kf_k2_
 # one deviating start slot is what seed C07f needs (two late pushers into a segment that advance_head has flagged but failed to unlink): thorough tier
 for t in ["kf_k2_up_hp", "kf_k2_up_ebr", "kb_k2s2_up"]:
     _c07_quick.append(run("ownership", t, c=2, r=1, opt={"rdom": 2}, weight=1))
-    _c07_thorough.append(run("ownership", t, c=3, r=1, opt={"rdom": 2, "T": 3, "m": 1}, weight=12))
+    _c07_thorough.append(run("ownership", t, c=3, r=1, opt={"rdom": 2, "T": 3, "m": 1, "prog": 4}, weight=12))  # push | push | pop
+    _c07_thorough.append(run("ownership", t, c=2, r=1, opt={"rdom": 2, "T": 3, "m": 1}, weight=3))
     _c07_thorough.append(run("ownership", t, c=2, r=1, opt={"rdom": 2, "T": 3, "m": 1, "prefill": 1}, weight=3))
 # sequential sweeps with unique_ptr elements at larger node / ring / segment sizes, destroyed with two elements inside (and empty)
 for t in _sw_fifo + ["nb", "vb", "kb", "kf_hp"]:
